@@ -105,6 +105,15 @@ def gen_c10(rng, tier, n):
             hi = rng.randrange(1, napp[cur]); lo = rng.randrange(hi)
             sid = rng.choice(["s1", "rewind"])
             lines += ["save %s @a%d" % (sid, hi), "load %s" % sid, "save %s @a%d" % (sid, lo), "load %s" % sid, "save %s -" % sid, "load %s" % sid]
+        if rng.random() < 0.1:
+            lines.append("appendnil"); lines.append("read - 0")
+        if rng.random() < 0.06 and not lines[0].startswith("kind ds"):
+            # a long log (more than one internal page of any plausible size) streamed twice through one iterator value
+            lines.append("use 8")
+            lines += ["append %d" % (2000 + i) for i in range(300)]
+            lines += ["streamtwice -", "streamtwice @a%d" % rng.randrange(1, 40)]
+        elif rng.random() < 0.2:
+            lines.append("streamtwice %s" % from_tok(rng, 3, napp.get(cur, 0)).replace("=", "@next") if False else "streamtwice -")
         if rng.random() < 0.12:
             # separately created stores, closed in creation order: A, B, close A, C – C starts empty and B keeps its events
             lines += ["use 4", "append %d" % (rec + 1), "use 5", "append %d" % (rec + 2), "drop 4", "use 6", "read - 0", "append %d" % (rec + 3),
@@ -228,7 +237,7 @@ def nontrivial(prop, lines, impl):
 
 def property_fails(prop, lines, impl, model):
     impl, model = normalize(lines, impl, model)
-    keep = {"C10": ("append", "read", "save", "load", "use", "replay", "drop", "raceappend"),
+    keep = {"C10": ("append", "read", "save", "load", "use", "replay", "drop", "raceappend", "streamtwice", "appendnil"),
             "C11": ("replay", "busreplay", "nestedreplay"),
             "C09": ("pub", "replaypub", "read"), "C03": ("pub", "replaypub", "read"),
             "C13": ("pub", "pubflaky", "read")}.get(prop, ("replay",))
